@@ -67,6 +67,14 @@ def copy (c : Cfg) (src dst n : Nat) (s : VW) : VW × Outcome Unit := (s.1.copy 
 /-- `mem::swap(&mut *p.add(i), &mut *p.add(j))` -/
 def swap (i j : Nat) (s : VW) : VW × Outcome Unit := (({ s.1 with slots := swapSlots s.1.slots i j }, s.2), .ok ())
 
+/-- `slice::Iter::next` over slots `[it.1, it.2)` of the buffer (std's iterator is not translated) -/
+def slice_iter_next (it : Nat × Nat) : Option Nat × (Nat × Nat) :=
+  if it.1 < it.2 then (some it.1, (it.1 + 1, it.2)) else (none, it)
+
+/-- `slice::Iter::next_back` -/
+def slice_iter_next_back (it : Nat × Nat) : Option Nat × (Nat × Nat) :=
+  if it.1 < it.2 then (some (it.2 - 1), (it.1, it.2 - 1)) else (none, it)
+
 /-- drop glue of an owned local while unwinding (a second panic here would abort the process) -/
 def drop_elem (c : Cfg) (e : Elem) (s : VW) : VW := (s.1, (dropElem c s.2 e).1)
 
